@@ -517,6 +517,16 @@ impl Gen {
         let quote = self.rng.pick(&info.supported_quote_denoms).clone();
         let price = self.price(info.price_precision.u128() as u32);
         let mut size = info.size_increment.u128().saturating_mul(self.lots());
+        let mut price = price;
+        if self.profile == Profile::Huge && self.rng.pct(8) {
+            // at the 96-bit limit of the decimal type: the largest lot multiple below 2^96, or the next one
+            let inc = info.size_increment.u128().max(1);
+            let below = ((1u128 << 96) - 1) / inc * inc;
+            size = if self.rng.pct(50) { below } else { below.saturating_add(inc) };
+            if self.rng.pct(70) {
+                price = "1".to_string();
+            }
+        }
         if info.size_increment.u128() > 1 && self.rng.pct(6) {
             // off the size grid, everything else (totals, fee, funds) consistent with it
             size = size.saturating_add(1 + self.rng.below((info.size_increment.u128() - 1).min(1 << 40) as u64) as u128);
@@ -562,6 +572,16 @@ impl Gen {
         let quote = self.rng.pick(&info.supported_quote_denoms).clone();
         let price = self.price(info.price_precision.u128() as u32);
         let mut size = info.size_increment.u128().saturating_mul(self.lots());
+        let mut price = price;
+        if self.profile == Profile::Huge && self.rng.pct(8) {
+            // at the 96-bit limit of the decimal type: the largest lot multiple below 2^96, or the next one
+            let inc = info.size_increment.u128().max(1);
+            let below = ((1u128 << 96) - 1) / inc * inc;
+            size = if self.rng.pct(50) { below } else { below.saturating_add(inc) };
+            if self.rng.pct(70) {
+                price = "1".to_string();
+            }
+        }
         if info.size_increment.u128() > 1 && self.rng.pct(6) {
             // off the size grid, everything else (totals, fee, funds) consistent with it
             size = size.saturating_add(1 + self.rng.below((info.size_increment.u128() - 1).min(1 << 40) as u64) as u128);
